@@ -925,17 +925,17 @@ def single_assign_aliases(fn) -> dict:
         if isinstance(st, ast.Assign):
             for t in st.targets:
                 for n in ast.walk(t):
-                    if isinstance(n, ast.Name):
+                    if isinstance(n, ast.Name) and isinstance(n.ctx, ast.Store):
                         counts[n.id] = counts.get(n.id, 0) + 1
                         if isinstance(t, ast.Name) and len(st.targets) == 1:
                             vals[n.id] = st.value
         elif isinstance(st, (ast.AugAssign, ast.AnnAssign)):
             for n in ast.walk(st.target):
-                if isinstance(n, ast.Name):
+                if isinstance(n, ast.Name) and isinstance(n.ctx, ast.Store):
                     counts[n.id] = counts.get(n.id, 0) + 2
         elif isinstance(st, (ast.For, ast.comprehension)):
             for n in ast.walk(st.target):
-                if isinstance(n, ast.Name):
+                if isinstance(n, ast.Name) and isinstance(n.ctx, ast.Store):
                     counts[n.id] = counts.get(n.id, 0) + 2
         elif isinstance(st, (ast.With,)):
             for it in st.items:
